@@ -27,9 +27,21 @@ def _source():
     """the functions under contract, extracted mechanically (decorators and docstrings dropped by the interpreter)"""
     src = report.read_source(BULK)
     tree = ast.parse(src)
-    keep = [n for n in tree.body if isinstance(n, ast.FunctionDef) and n.name in SRC_NAMES]
+    top = {n.name: n for n in tree.body if isinstance(n, ast.FunctionDef)}
+    consts = {n.targets[0].id: n for n in tree.body if isinstance(n, ast.Assign) and len(n.targets) == 1 and isinstance(n.targets[0], ast.Name)}
+    names, todo = set(), [x for x in SRC_NAMES if x in top]
+    while todo:                              # the functions under contract and every module-level helper / constant they (transitively) refer to
+        x = todo.pop()
+        if x in names:
+            continue
+        names.add(x)
+        node = top.get(x) or consts.get(x)
+        for sub in ast.walk(node):
+            if isinstance(sub, ast.Name) and (sub.id in top or sub.id in consts) and sub.id not in names:
+                todo.append(sub.id)
+    keep = [n for n in tree.body if (isinstance(n, ast.FunctionDef) and n.name in names) or (isinstance(n, ast.Assign) and len(n.targets) == 1 and isinstance(n.targets[0], ast.Name) and n.targets[0].id in names)]
     mod = ast.Module(body=keep, type_ignores=[])
-    return ast.unparse(mod), {n.name: hashlib.sha256(ast.unparse(n).encode()).hexdigest()[:16] for n in keep}
+    return ast.unparse(mod), {n.name: hashlib.sha256(ast.unparse(n).encode()).hexdigest()[:16] for n in keep if isinstance(n, ast.FunctionDef)}
 
 
 def best_unit(W, style, neg, e):
